@@ -15,7 +15,7 @@ import (
 func init() {
 	Registry["C16"] = C16
 	Metas["C16"] = Meta{
-		Explanation: "Decides the structural clauses of C16: (R1) the lookup entry points (Map/MapOf Load, Size and the counter sum, cache Count) have an empty transitive effect set w.r.t. blocking primitives, locks, reads of the resize flag, writes to shared memory, yielding and calls of user functions other than the hasher; (R2) every loop in them is of an accepted non-waiting kind (bounded counted scan, chain walk exiting on nil, SWAR scan, snapshot retry whose back edge needs two atomic loads of one slot to differ, i.e. a step by another goroutine); (R3) in the load-if-exists specialisation of the compute core the lock-free lookup precedes every lock acquire and every call of a function with a blocking effect, its hit edge returns without locking, and the wrappers selecting that mode block nowhere but inside the core; (R4) on every evaluated abstract path of Get / GetWithExpiration / GetWithTTL a map operation other than the lock-free Load follows only a Load of the same call that observed an expired entry; (R5) the bucket copy of a resize writes nothing reachable from its source bucket except the lock word. NOT decided: step counts, progress of the snapshot retry against a never-pausing writer (lock-free, not wait-free), cost of user hashers.",
+		Explanation: "Decides the structural clauses of C16: (R1) the lookup entry points (Map/MapOf Load, Size and the counter sum, cache Count) have an empty transitive effect set w.r.t. blocking primitives, locks, reads of the resize flag, writes to shared memory, yielding and calls of user functions other than the hasher; (R2) every loop in them is of an accepted non-waiting kind (bounded counted scan, chain walk exiting on nil, SWAR scan, snapshot retry whose back edge needs two atomic loads of one slot to differ, i.e. a step by another goroutine); (R3) in the load-if-exists specialisation of the compute core the lock-free lookup precedes every lock acquire and every call of a function with a blocking effect, its hit edge returns without locking, and the wrappers selecting that mode block nowhere but inside the core - or the get-or-create wrappers make the lock-free attempt themselves: a call of a lock-free reader of the map that dominates the call into the core and whose found edge returns without a lock, a blocking call or the core; (R4) on every evaluated abstract path of Get / GetWithExpiration / GetWithTTL a map operation other than the lock-free Load follows only a Load of the same call that observed an expired entry; (R5) the bucket copy of a resize writes nothing reachable from its source bucket except the lock word. NOT decided: step counts, progress of the snapshot retry against a never-pausing writer (lock-free, not wait-free), cost of user hashers.",
 		Rule:        "one obligation per (rule, entry function | loop | call site); non-trivial = verdict depended on an effect set, a loop classification or a dominance query",
 		Assumptions: []string{"effects of standard-library callees come from a frozen table (an unknown callee fails)", "hash functions are non-blocking leaves"},
 	}
@@ -239,6 +239,20 @@ func c16R3(r *Run, rep *core.Report) {
 				}
 			})
 		}
+		// ... or the get-or-create wrappers make the attempt themselves before they enter the core
+		wrapperFast := map[string]bool{}
+		allWrappers := true
+		for _, w := range []string{"LoadOrStore", "LoadOrCompute"} {
+			wrapperFast[w] = wrapperFastPath(r, mm, mm.Methods[w])
+			if !wrapperFast[w] {
+				allWrappers = false
+			} else {
+				n++
+			}
+		}
+		if allWrappers {
+			hasFast = true
+		}
 		rep.Check(hasFast, "C16.R3", fn(f)+" has a lock-free attempt", r.P.Pos(f.Pos()), "LoadOrStore/LoadOrCompute try the lock-free lookup first", "no specialisation of the compute core performs the lock-free lookup: the hit path of LoadOrStore/LoadOrCompute always locks")
 		// and the wrappers that promise it must select that mode: LoadOrStore / LoadOrCompute
 		for _, w := range []string{"LoadOrStore", "LoadOrCompute"} {
@@ -256,6 +270,9 @@ func c16R3(r *Run, rep *core.Report) {
 						ok = true
 					}
 				})
+			}
+			if wrapperFast[w] {
+				ok = true // the wrapper's own lock-free attempt comes first
 			}
 			rep.Check(ok, "C16.R3", fn(wf)+" selects the fast-path mode", r.P.Pos(wf.Pos()), "calls the core in a mode that tries the lock-free lookup", "get-or-create wrapper calls the compute core in a mode without the lock-free lookup")
 			// the wrapper itself (and any wrapper it delegates to) blocks nowhere but inside the core
@@ -290,6 +307,79 @@ func c16R3(r *Run, rep *core.Report) {
 		}
 	}
 	rep.MinCount("C16.R3", "load-if-exists specialisations", n, 2)
+}
+
+// wrapperFastPath: the wrapper calls a lock-free reader of the map (Load, or a second reader judged by P1) before it
+// calls into the compute core, and the found edge of that call returns without taking a lock, blocking or entering the
+// core.
+func wrapperFastPath(r *Run, mm *core.MapModel, wf *ssa.Function) bool {
+	if wf == nil {
+		return false
+	}
+	readers, _ := secondReadersAll(r, mm)
+	is := map[*ssa.Function]bool{mm.Methods["Load"]: true}
+	for _, g := range readers {
+		is[g] = true
+	}
+	coreCall, _ := coreCallOf(mm, wf, 0)
+	if coreCall == nil || coreCall.Parent() != wf {
+		return false
+	}
+	found := false
+	core.Instrs(wf, func(in ssa.Instruction) {
+		c, ok := in.(*ssa.Call)
+		if !ok || !is[core.Callee(c)] || found {
+			return
+		}
+		if !core.Dominates(c, coreCall) {
+			return
+		}
+		for _, b := range wf.Blocks {
+			if !onFlagEdge(b, c, true) {
+				continue
+			}
+			clean, returns := true, false
+			seen := map[*ssa.BasicBlock]bool{}
+			var walk func(x *ssa.BasicBlock)
+			walk = func(x *ssa.BasicBlock) {
+				if seen[x] {
+					return
+				}
+				seen[x] = true
+				for _, in2 := range x.Instrs {
+					if r.M.LockEventOf(in2) != nil {
+						clean = false
+					}
+					if c2, isC := in2.(ssa.CallInstruction); isC {
+						if cal := core.Callee(c2); cal != nil {
+							if cal == mm.Core {
+								clean = false
+							}
+							if cc, _ := coreCallOf(mm, cal, 0); cc != nil {
+								clean = false
+							}
+							for e := range core.Blocking {
+								if _, has := r.E.Has(cal, e); has {
+									clean = false
+								}
+							}
+						}
+					}
+					if _, isRet := in2.(*ssa.Return); isRet {
+						returns = true
+					}
+				}
+				for _, nx := range x.Succs {
+					walk(nx)
+				}
+			}
+			walk(b)
+			if clean && returns {
+				found = true
+			}
+		}
+	})
+	return found
 }
 
 func hasTrueSpec(sp core.Spec) bool { return len(sp) > 0 }
